@@ -127,6 +127,33 @@ def edited_programs():
         return b
     for d in (1, 2, 3):
         yield (f"edited/same-named-descendant/d{d}", same_named_descendant(d))
+    # the same domain-less external cell declared once with domain=None and once with domain="" (as from_proto leaves it):
+    # one identity, one declaration
+    for pair in ((None, ""), ("", None), (None, None), ("", "")):
+        def bd(pair=pair):
+            Ea = h.ExternalModule(name="NoDomain", port_list=[h.Inout(name="a")], desc="", domain=pair[0])
+            Eb = h.ExternalModule(name="NoDomain", port_list=[h.Inout(name="a")], desc="", domain=pair[1])
+            m = h.Module(name="TwoNoDomain")
+            m.v = h.Signal()
+            m.x = Ea()(a=m.v)
+            m.y = Eb()(a=m.v)
+            return m
+        yield (f"edited/external-module-twice/domains-{pair[0]!r}-{pair[1]!r}", bd)
+    # an already NAMED object that the module does not hold yet, assigned under another attribute name, while the module
+    # holds a connected signal / port under the object's old name (e.g. a copy of a child's port turned into a local net)
+    for kind in ("signal", "port"):
+        for what in ("copy", "fresh-named"):
+            def bn(kind=kind, what=what):
+                import copy as _copy
+                m = h.Module(name="Renamed")
+                m.v = h.Signal()
+                held = m.add(h.Signal(name="data") if kind == "signal" else h.Port(name="data"))
+                m.u = leaf()(a=held, b=m.v)
+                newcomer = _copy.copy(held) if what == "copy" else h.Signal(name="data")
+                m.local = newcomer                  # entered as `local`; `data` stays what it was
+                m.u3 = leaf()(a=m.local, b=held)
+                return m
+            yield (f"edited/named-newcomer/{kind}/{what}", bn)
     for same in (True, False):
         def be(same=same):
             E1 = h.ExternalModule(name="Twice", port_list=[h.Inout(name="a")], desc="", domain="c6")
